@@ -373,21 +373,80 @@ func reachablePhiAware(target ssa.Instruction, fact CondFact) bool {
 // incoming edge. visit is called for every (block, incoming edge) state reached; returning false does not expand that block.
 func Explore(start *ssa.BasicBlock, pred int, fact CondFact, visit func(*ssa.BasicBlock) bool) {
 	fn := start.Parent()
-	type state struct {
+	// relevant: blocks whose phis (transitively, through other phis) feed some branch condition of the function. For those blocks
+	// the walk remembers through which incoming edge they were entered last (at most four of them: enough for the result variables of
+	// an inlined helper that themselves merge a flag computed by `a || b`).
+	relevant := map[*ssa.BasicBlock]bool{}
+	var mark func(v ssa.Value, depth int)
+	mark = func(v ssa.Value, depth int) {
+		if depth == 0 || v == nil {
+			return
+		}
+		switch x := v.(type) {
+		case *ssa.Phi:
+			if relevant[x.Block()] && depth < 6 {
+				return
+			}
+			relevant[x.Block()] = true
+			for _, e := range x.Edges {
+				mark(e, depth-1)
+			}
+		case *ssa.UnOp:
+			if x.Op == token.NOT {
+				mark(x.X, depth-1)
+			}
+		case *ssa.BinOp:
+			mark(x.X, depth-1)
+			mark(x.Y, depth-1)
+		case *ssa.ChangeType:
+			mark(x.X, depth-1)
+		case *ssa.Convert:
+			mark(x.X, depth-1)
+		}
+	}
+	for _, b := range fn.Blocks {
+		if iff, ok := b.Instrs[len(b.Instrs)-1].(*ssa.If); ok {
+			mark(iff.Cond, 6)
+		}
+	}
+	type entry struct {
 		b    *ssa.BasicBlock
 		pred int
 	}
-	needs := map[*ssa.BasicBlock]bool{}
-	for _, b := range fn.Blocks {
-		if iff, ok := b.Instrs[len(b.Instrs)-1].(*ssa.If); ok && mentionsPhiOf(iff.Cond, b, 4) {
-			needs[b] = true
+	type state struct {
+		b   *ssa.BasicBlock
+		env string
+	}
+	type item struct {
+		b   *ssa.BasicBlock
+		env []entry // most recent last
+	}
+	key := func(env []entry) string {
+		var sb strings.Builder
+		for _, e := range env {
+			fmt.Fprintf(&sb, "%d:%d,", e.b.Index, e.pred)
 		}
+		return sb.String()
 	}
-	if !needs[start] {
-		pred = -1
+	enter := func(env []entry, b *ssa.BasicBlock, pred int) []entry {
+		if !relevant[b] || pred < 0 {
+			return env
+		}
+		out := make([]entry, 0, len(env)+1)
+		for _, e := range env {
+			if e.b != b {
+				out = append(out, e)
+			}
+		}
+		out = append(out, entry{b, pred})
+		if len(out) > 4 {
+			out = out[len(out)-4:]
+		}
+		return out
 	}
-	seen := map[state]bool{{start, pred}: true}
-	work := []state{{start, pred}}
+	first := enter(nil, start, pred)
+	seen := map[state]bool{{start, key(first)}: true}
+	work := []item{{start, first}}
 	for len(work) > 0 {
 		s := work[len(work)-1]
 		work = work[:len(work)-1]
@@ -395,6 +454,14 @@ func Explore(start *ssa.BasicBlock, pred int, fact CondFact, visit func(*ssa.Bas
 			continue
 		}
 		iff, _ := s.b.Instrs[len(s.b.Instrs)-1].(*ssa.If)
+		lookup := func(b *ssa.BasicBlock) int {
+			for k := len(s.env) - 1; k >= 0; k-- {
+				if s.env[k].b == b {
+					return s.env[k].pred
+				}
+			}
+			return -1
+		}
 		for idx, succ := range s.b.Succs {
 			if iff != nil {
 				// the fact may be stated about the merged value itself (original condition) or about what it merges (specialised)
@@ -404,8 +471,8 @@ func Explore(start *ssa.BasicBlock, pred int, fact CondFact, visit func(*ssa.Bas
 						continue
 					}
 				}
-				if s.pred >= 0 {
-					cond := specialise(iff.Cond, s.b, s.pred, 4)
+				if len(s.env) > 0 {
+					cond := specialiseEnv(iff.Cond, lookup, 6)
 					if k, isConst := constCond(cond); isConst {
 						if (idx == 0 && !k) || (idx == 1 && k) {
 							continue // infeasible for the incoming value
@@ -418,17 +485,49 @@ func Explore(start *ssa.BasicBlock, pred int, fact CondFact, visit func(*ssa.Bas
 					}
 				}
 			}
-			np := -1
-			if needs[succ] {
-				np = PredIndex(s.b, idx)
-			}
-			st := state{succ, np}
+			nenv := enter(s.env, succ, PredIndex(s.b, idx))
+			st := state{succ, key(nenv)}
 			if !seen[st] {
 				seen[st] = true
-				work = append(work, st)
+				work = append(work, item{succ, nenv})
 			}
 		}
 	}
+}
+
+// specialiseEnv rewrites cond with every phi whose block's incoming edge is known replaced by that edge's value (repeatedly).
+func specialiseEnv(v ssa.Value, pred func(*ssa.BasicBlock) int, depth int) ssa.Value {
+	if depth == 0 || v == nil {
+		return v
+	}
+	switch x := v.(type) {
+	case *ssa.Phi:
+		if k := pred(x.Block()); k >= 0 && k < len(x.Edges) {
+			return specialiseEnv(x.Edges[k], pred, depth-1)
+		}
+	case *ssa.UnOp:
+		if x.Op == token.NOT {
+			if y := specialiseEnv(x.X, pred, depth-1); y != x.X {
+				return &ssa.UnOp{Op: token.NOT, X: y}
+			}
+		}
+	case *ssa.BinOp:
+		nx, ny := specialiseEnv(x.X, pred, depth-1), specialiseEnv(x.Y, pred, depth-1)
+		if nx != x.X || ny != x.Y {
+			return &ssa.BinOp{Op: x.Op, X: nx, Y: ny}
+		}
+	case *ssa.ChangeType:
+		if y := specialiseEnv(x.X, pred, depth-1); y != x.X {
+			return y
+		}
+	case *ssa.Convert:
+		if y := specialiseEnv(x.X, pred, depth-1); y != x.X {
+			if _, isConst := y.(*ssa.Const); !isConst {
+				return y
+			}
+		}
+	}
+	return v
 }
 
 // PredIndex: the index, among the predecessors of b.Succs[idx], of the edge that is b's idx-th successor edge.
@@ -882,6 +981,42 @@ func (p Path) ResolveAt(k int, v ssa.Value) ssa.Value {
 			return v
 		}
 		// which incoming edge: p[j-1] -> p[j]; with duplicate edges take the successor index the path used (first match)
+		pred := p[j-1]
+		e := -1
+		for idx, pb := range ph.Block().Preds {
+			if pb == pred {
+				e = idx
+				break
+			}
+		}
+		if e < 0 || e >= len(ph.Edges) {
+			return v
+		}
+		v, k = ph.Edges[e], j-1
+	}
+	return v
+}
+
+// ResolveWithin is ResolveAt restricted to the part of the path after position from: phis whose block was entered at positions
+// from+1..k are replaced by the value of the edge taken; a phi whose block was not entered in that window is returned as it is.
+// Resolving the loop-carried value of a header phi over one iteration tells whether the iteration assigned the variable (some other
+// value comes back) or left it alone (the header phi itself comes back).
+func (p Path) ResolveWithin(from, k int, v ssa.Value) ssa.Value {
+	for n := 0; n < 16; n++ {
+		ph, ok := v.(*ssa.Phi)
+		if !ok {
+			return v
+		}
+		j := -1
+		for i := k; i > from; i-- {
+			if p[i] == ph.Block() {
+				j = i
+				break
+			}
+		}
+		if j < 1 {
+			return v
+		}
 		pred := p[j-1]
 		e := -1
 		for idx, pb := range ph.Block().Preds {
